@@ -65,6 +65,15 @@ Fixpoint be_bytes (n : nat) (v : N) (acc : bytes) : bytes :=
 Definition DOMAIN : bytes :=
   be_bytes (N.to_nat Consts.C01_STATIC_KEY_DOMAIN_LEN) Consts.C01_STATIC_KEY_DOMAIN_BE [].
 
+(* P2P_SIGNING_PREFIX = "libp2p-tls-handshake:" (crypto/tls/certificate.rs) and the prefix of the
+   WebRTC Noise prologue "libp2p-webrtc-noise:" (transport/webrtc/opening.rs) *)
+Definition TLS_PREFIX : bytes :=
+  be_bytes (N.to_nat Consts.C01_TLS_SIGNING_PREFIX_LEN) Consts.C01_TLS_SIGNING_PREFIX_BE [].
+Definition WEBRTC_PREFIX : bytes :=
+  be_bytes (N.to_nat Consts.C01_WEBRTC_PROLOGUE_PREFIX_LEN) Consts.C01_WEBRTC_PROLOGUE_PREFIX_BE [].
+(* noise_prologue(local, remote) = PREFIX ++ remote ++ local *)
+Definition webrtc_prologue (local remote : bytes) : bytes := WEBRTC_PREFIX ++ remote ++ local.
+
 (* ------------------------------------------------------------------ prost 0.13.5 *)
 
 (* prost::RECURSION_LIMIT (lib.rs); a dependency's constant, written here *)
@@ -313,7 +322,11 @@ Inductive err :=
 | EKeyInvalid     (* ParseError(InvalidPublicKey) *)
 | ESigMissing     (* BadSignature *)
 | ESigBad         (* BadSignature *)
-| EMismatch.      (* PeerIdMismatch *)
+| EMismatch       (* PeerIdMismatch; TLS: "Wrong peer ID in p2p extension" *)
+| ETlsNoExt       (* TLS: webpki BadDer (no libp2p extension, or more than one) *)
+| ETlsExtValue    (* TLS: webpki ExtensionValueInvalid (SignedKey does not decode) *)
+| ETlsIssuer      (* TLS: webpki UnknownIssuer (key blob refused, or signature does not verify) *)
+| ETlsCritical.   (* TLS: webpki UnsupportedCriticalExtension (a critical extension other than libp2p's) *)
 
 Inductive result := Accept (p : pid) | Reject (e : err).
 Inductive keyres := KeyOk (k : bytes) | KeyErr (e : err).
@@ -366,6 +379,131 @@ Section Decision.
   Definition accept (pb rs : bytes) (dialed : option pid) : result :=
     check_dialed dialed (verify_identity pb rs).
 
+  (* -------------------------------------------------------------- the TLS caller (QUIC) *)
+  (* crypto/tls/certificate.rs::parse after the X.509 layer (x509-parser, validity period,
+     self-signature by ring — all trusted).  `parse_unverified` walks the certificate's extensions
+     in order:
+        the libp2p OID seen a second time                 -> BadDer, at once
+        the libp2p OID: SignedKey ::= SEQUENCE { OCTET STRING, OCTET STRING } (yasna) does not
+                        decode                            -> ExtensionValueInvalid
+                        RemotePublicKey::from_protobuf_encoding refuses the key -> UnknownIssuer
+        any other OID marked critical                     -> UnsupportedCriticalExtension
+        any other OID, not critical                       -> ignored
+     and at the end no libp2p extension -> BadDer.  `verify` then checks the signature of the
+     admitted key over P2P_SIGNING_PREFIX ++ the certificate's SubjectPublicKeyInfo (UnknownIssuer
+     otherwise); crypto/tls/verifier.rs compares the id with the dialed peer (verify_server_cert;
+     verify_client_cert has no expectation).  The same key admission and id derivation as Noise. *)
+  Inductive xext :=
+  | XP2p (content : option (bytes * bytes))   (* the libp2p OID; None: the content is not a SignedKey *)
+  | XOther (critical : bool).                  (* any other OID *)
+
+  Inductive scan := ScanErr (e : err) | ScanOk (found : option (bytes * bytes)).
+
+  (* an extension the verifier skips: another OID, not marked critical *)
+  Definition ignorable (x : xext) : Prop := x = XOther false.
+
+  (* the loop of parse_unverified; `found` = (admitted key, signature) of the extension seen so far *)
+  Fixpoint tls_scan (found : option (bytes * bytes)) (l : list xext) : scan :=
+    match l with
+    | [] => ScanOk found
+    | XP2p c :: r =>
+        match found with
+        | Some _ => ScanErr ETlsNoExt
+        | None =>
+            match c with
+            | None => ScanErr ETlsExtValue
+            | Some (kb, sg) =>
+                match decode_pubkey kb with
+                | KeyErr _ => ScanErr ETlsIssuer
+                | KeyOk k => tls_scan (Some (k, sg)) r
+                end
+            end
+        end
+    | XOther true :: _ => ScanErr ETlsCritical
+    | XOther false :: r => tls_scan found r
+    end.
+
+  Definition tls_verify (l : list xext) (spki : bytes) : result :=
+    match tls_scan None l with
+    | ScanErr e => Reject e
+    | ScanOk None => Reject ETlsNoExt
+    | ScanOk (Some (k, sg)) =>
+        if verify k (TLS_PREFIX ++ spki) sg then Accept (peer_id_of_key k) else Reject ETlsIssuer
+    end.
+
+  Definition tls_accept (l : list xext) (spki : bytes) (expected : option pid) : result :=
+    check_dialed expected (tls_verify l spki).
+
+  (* -------------------------------------------------------------- every caller, and the manager *)
+  (* Who compares the authenticated id with the peer that was dialed?
+       TCP        TcpTransport::dial/open take the expectation from the /p2p part of the address
+                  (Option: TcpAddress::multiaddr_to_socket_address), negotiate_connection compares;
+       WebSocket  dial/open refuse an address without /p2p (multiaddr_into_url: PeerIdMissing),
+                  negotiate_connection always gets Some(dialed_peer) and compares;
+       QUIC       dial/open refuse an address without /p2p (AddressError::PeerIdMissing),
+                  make_client_config(keypair, Some(peer)) -> verify_server_cert compares;
+       WebRTC     no dial path at all (litep2p only accepts; it is the Noise initiator there).
+     Listeners of all four have no expectation.  Behind every transport,
+     TransportManager::on_connection_established compares the reported peer with the entry that
+     dial()/dial_address() left in pending_connections for that connection id and refuses the
+     connection on a mismatch (transport.reject; a debug build stops at debug_assert!(false)). *)
+  Inductive transport := TTcp | TWebSocket | TQuic | TWebRtc.
+
+  (* what the remote presented: the decrypted Noise identity payload with the session's remote
+     static key, or the certificate's extensions with its SubjectPublicKeyInfo *)
+  Inductive evidence := EvNoise (pb rs : bytes) | EvTls (l : list xext) (spki : bytes).
+
+  Inductive setup := NoDial | DialWith (expected : option pid).
+
+  Definition dial_setup (t : transport) (addr_peer : option pid) : setup :=
+    match t with
+    | TTcp => DialWith addr_peer
+    | TWebSocket | TQuic =>
+        match addr_peer with Some p => DialWith (Some p) | None => NoDial end
+    | TWebRtc => NoDial
+    end.
+
+  (* None: that kind of evidence does not exist on that transport *)
+  Definition transport_verdict (t : transport) (expected : option pid) (ev : evidence) : option result :=
+    match t, ev with
+    | TTcp, EvNoise pb rs | TWebSocket, EvNoise pb rs => Some (accept pb rs expected)
+    | TQuic, EvTls l spki => Some (tls_accept l spki expected)
+    | TWebRtc, EvNoise pb rs => Some (accept pb rs None)
+    | _, _ => None
+    end.
+
+  (* what an accepted identity rests on, per kind of evidence *)
+  Definition authentic (ev : evidence) (p : pid) : Prop :=
+    match ev with
+    | EvNoise pb rs =>
+        exists pl kb sg k,
+          decode_payload pb = Some pl /\ p_key pl = Some kb /\ p_sig pl = Some sg /\
+          decode_pubkey kb = KeyOk k /\ verify k (DOMAIN ++ rs) sg = true /\ p = peer_id_of_key k
+    | EvTls l spki =>
+        exists l1 kb sg l2 k,
+          l = l1 ++ XP2p (Some (kb, sg)) :: l2 /\ Forall ignorable l1 /\ Forall ignorable l2 /\
+          decode_pubkey kb = KeyOk k /\ verify k (TLS_PREFIX ++ spki) sg = true /\ p = peer_id_of_key k
+    end.
+
+  (* TransportManager::on_connection_established: pending_connections.remove(connection id) *)
+  Definition manager_check (pending : option pid) (r : result) : result := check_dialed pending r.
+
+  Definition omap {A B} (f : A -> B) (o : option A) : option B :=
+    match o with Some a => Some (f a) | None => None end.
+
+  (* a connection dialed through the manager: `addr_peer` is the /p2p part of the address handed
+     to the transport, `dialed` the peer recorded in pending_connections *)
+  Definition dial_outcome (t : transport) (addr_peer : option pid) (dialed : pid) (ev : evidence)
+    : option result :=
+    match dial_setup t addr_peer with
+    | NoDial => None
+    | DialWith e => omap (manager_check (Some dialed)) (transport_verdict t e ev)
+    end.
+
+  (* an inbound connection: no expectation anywhere *)
+  Definition inbound_outcome (t : transport) (ev : evidence) : option result :=
+    omap (manager_check None) (transport_verdict t None ev).
+
   (* -------------------------------------------------------------- transcript layer *)
 
   Inductive ct := Ct (k h pt : bytes) | Junk (b : bytes).
@@ -382,7 +520,9 @@ Section Decision.
     | Junk _ => None
     end.
 
-  Record party := mkParty { eph : N; sta : N; pay : bytes; dialed_of : option pid }.
+  (* `pro` is the Noise prologue: empty for TCP and WebSocket, "libp2p-webrtc-noise:" followed by
+     the two DTLS fingerprints for WebRTC (NoiseContext::with_prologue) *)
+  Record party := mkParty { eph : N; sta : N; pay : bytes; dialed_of : option pid; pro : bytes }.
 
   Record msg1 := mkM1 { m1_e : bytes; m1_pl : bytes }.
   Record msg2 := mkM2 { m2_e : bytes; m2_s : ct; m2_p : ct }.
@@ -411,7 +551,7 @@ Section Decision.
 
   (* listener after reading message 1: transcript, DH outputs, and its message 2 *)
   Definition l_tr1 (L : party) (d1 : msg1) : list item :=
-    [IB (m1_e d1); IB (m1_pl d1); IB (pubk (eph L))].
+    [IB (pro L); IB (m1_e d1); IB (m1_pl d1); IB (pubk (eph L))].
   Definition l_ks1 (L : party) (d1 : msg1) : list bytes := [dh (eph L) (m1_e d1)].
   Definition l_cs2 (L : party) (d1 : msg1) : ct :=
     Ct (KDF (l_ks1 L d1)) (H (l_tr1 L d1)) (pubk (sta L)).
@@ -426,7 +566,7 @@ Section Decision.
 
   (* dialer reading message 2 *)
   Definition d_tr1 (D : party) (d2 : msg2) : list item :=
-    [IB (pubk (eph D)); IB []; IB (m2_e d2)].
+    [IB (pro D); IB (pubk (eph D)); IB []; IB (m2_e d2)].
   Definition d_ks1 (D : party) (d2 : msg2) : list bytes := [dh (eph D) (m2_e d2)].
   Definition d_tr2 (D : party) (d2 : msg2) : list item := d_tr1 D d2 ++ [IC (m2_s d2)].
   Definition d_ks2 (D : party) (d2 : msg2) (s : bytes) : list bytes :=
@@ -504,6 +644,38 @@ End Decision.
 Arguments DMsg {A} m.
 Arguments DShort {A}.
 Arguments DBad {A}.
+
+(* ------------------------------------------------------------------ framing of handshake messages *)
+(* NoiseContext::first_message / second_message: `(nwritten as u16).to_be_bytes()` followed by the
+   message; nwritten is at most the size of the write buffer (256 / 2048), far below 2^16 *)
+Definition frame (b : bytes) : bytes := (len b / 256) :: (len b mod 256) :: b.
+
+(* NoiseContext::read_handshake_message: read_exact of two bytes, then read_exact of exactly that
+   many bytes; nothing else is taken from the stream (no read-ahead).  None = the stream ends
+   before the frame is complete (UnexpectedEof).  Every u16 length is admitted: snow's limit on a
+   handshake message is 65535 bytes. *)
+Definition read_frame (s : bytes) : option (bytes * bytes) :=
+  match s with
+  | hi :: lo :: r =>
+      let n := N.to_nat (hi * 256 + lo) in
+      if (length r <? n)%nat then None else Some (firstn n r, skipn n r)
+  | _ => None
+  end.
+
+(* the listener's two reads, the dialer's one: what each hands to snow and what is left on the
+   stream for the NoiseSocket built afterwards *)
+Definition listener_reads (s : bytes) : option (bytes * bytes * bytes) :=
+  match read_frame s with
+  | Some (m1, r1) =>
+      match read_frame r1 with Some (m3, r3) => Some (m1, m3, r3) | None => None end
+  | None => None
+  end.
+
+(* sizes of the three messages of an honest litep2p node: e (32) | e (32), encrypted s (32 + 16),
+   encrypted payload (+ 16) | encrypted s (48), encrypted payload (+ 16) *)
+Definition msg1_len : N := 32.
+Definition msg2_len (payload_len : N) : N := 32 + 48 + payload_len + 16.
+Definition msg3_len (payload_len : N) : N := 48 + payload_len + 16.
 
 (* ------------------------------------------------------------------ instances used in runs *)
 
